@@ -8,7 +8,7 @@ import (
 func fingerprint(labels map[string]string) uint64 {
 	descr := [3]uint64{0, 0, 1}
 	for k, v := range labels {
-		a := k + v
+		a := k + "\x00" + v
 		descr[0] += city.CH64([]byte(a))
 		descr[1] ^= city.CH64([]byte(a))
 		descr[2] *= 1779033703 + 2*city.CH64([]byte(a))
